@@ -23,7 +23,8 @@
 (*   "no_recheck"   Notify does not look the entry up again under the write lock.                                 *)
 EXTENDS Integers, FiniteSets, TLC
 
-CONSTANTS Slots, Notifiers, Shape, Variant
+CONSTANTS Slots, Notifiers, Shape, Variant,
+          Cancels    \* the slots whose Wait context may get cancelled
 
 VARIABLES ent,      \* value -> <<channel, count>> (channel 0 = no entry)
           nextch, closed, \* channel allocator, closed channels
@@ -115,7 +116,7 @@ Sel(l) == /\ pcw[l] = "sel"
 Chk(l) == /\ pcw[l] = "chk" /\ pcw' = [pcw EXCEPT ![l] = "dfr"]
           /\ resw' = [resw EXCEPT ![l] = IF Variant # "no_priority" /\ lst[l][3] /\ ~lst[l][4] THEN "dereg" ELSE "ok"]
           /\ UNCHANGED <<ent, nextch, closed, lst, pcd, pcn, ctx, held, panic, elig, started, sure, removed>>
-Cancel(l) == /\ Created(l) /\ ~ctx[l] /\ pcw[l] \in {"w0", "sel", "park"} /\ ctx' = [ctx EXCEPT ![l] = TRUE]
+Cancel(l) == /\ l \in Cancels /\ Created(l) /\ ~ctx[l] /\ pcw[l] \in {"w0", "sel", "park"} /\ ctx' = [ctx EXCEPT ![l] = TRUE]
              /\ IF pcw[l] = "park" THEN pcw' = [pcw EXCEPT ![l] = "dfr"] /\ resw' = [resw EXCEPT ![l] = "ctx"] ELSE UNCHANGED <<pcw, resw>>
              /\ UNCHANGED <<ent, nextch, closed, lst, pcd, pcn, held, panic, elig, started, sure, removed>>
 
